@@ -36,10 +36,13 @@ def find_peaks(data, min_peak_distance, min_peak_height):
 
 @_nb.njit()
 def _find_peaks_numba_core(data, maximas, min_peak_distance):
+    positions = maximas.copy()
     for i in range(len(maximas)):
         p = i
-        while p < (len(maximas) - 1) and abs(maximas[i] - maximas[p + 1]) < min_peak_distance:
+        while maximas[i] > -1 and p < (len(maximas) - 1) and abs(positions[i] - positions[p + 1]) < min_peak_distance:
             p += 1
+            if maximas[p] == -1:
+                continue
             if data[maximas[i]] < data[maximas[p]]:
                 maximas[i] = -1
             else:
